@@ -84,6 +84,18 @@ IH = tp.TypeVar('IH', bound='IndexHierarchy')
 CONTINUATION_TOKEN_INACTIVE = object()
 
 #-------------------------------------------------------------------------------
+def levels_relink(level: IndexLevel) -> None:
+    '''After levels have been removed from a tree of (copied) IndexLevel, the cached lengths and the offsets are those of the old tree: recompute them in place.
+    '''
+    level._length = None
+    if level.targets is not None:
+        offset = 0
+        for target in level.targets:
+            levels_relink(target)
+            target.offset = offset
+            offset += target.__len__()
+
+
 class IndexHierarchy(IndexBase):
     '''A hierarchy of :obj:`Index` objects, defined as a strict tree of uniform depth across all branches.'''
 
@@ -1613,6 +1625,7 @@ class IndexHierarchy(IndexBase):
             if levels.targets is None: # fall back to 1D index
                 return levels.index.rename(name)
 
+            levels_relink(levels)
             # if we have TypeBlocks and levels is the same length
             if not self._recache and levels.__len__() == self.__len__():
                 blocks = self._blocks.iloc[NULL_SLICE, :count]
@@ -1639,6 +1652,7 @@ class IndexHierarchy(IndexBase):
                         index=index,
                         targets=ArrayGO(targets, own_iterable=True))
 
+            levels_relink(levels)
             # if we have TypeBlocks and levels is the same length
             if not self._recache and levels.__len__() == self.__len__():
                 blocks = self._blocks.iloc[NULL_SLICE, count:]
